@@ -245,6 +245,11 @@ class Number(ExcelType):
         if isinstance(self.value, float) and self.value.is_integer() \
                 and abs(self.value) < 1e15:
             return str(int(self.value))
+        # ... whichever way it is held: the whole number 1000000000000000
+        # reads like 1E+15.
+        if isinstance(self.value, int) and not isinstance(self.value, bool) \
+                and 1e15 <= abs(self.value) < 1e308:
+            return str(float(self.value))
         return str(self.value)
 
     def __datetime__(self):
